@@ -268,7 +268,17 @@ func classifyMapRange(e *Env, p *load.Program, f *ssa.Function, rg *ssa.Range) (
 			kv[ex.Index] = ex
 		}
 	}
-	derived := func(v ssa.Value) bool { return derivesFrom(v, kv[1], kv[2], 0) }
+	// the iteration's value: the value variable of the range statement, or the ranged map looked up at the iteration's key
+	isIterVal := func(v ssa.Value) bool {
+		if kv[2] != nil && v == kv[2] {
+			return true
+		}
+		lk, ok := v.(*ssa.Lookup)
+		return ok && !lk.CommaOk && kv[1] != nil && lk.Index == kv[1] && (lk.X == rg.X || sameLoadedValue(lk.X, rg.X))
+	}
+	derived := func(v ssa.Value) bool {
+		return derivesFromP(v, func(x ssa.Value) bool { return (kv[1] != nil && x == kv[1]) || isIterVal(x) }, 0)
+	}
 	// 1. loop-carried accumulators at the header
 	for _, in := range H.Instrs {
 		ph, ok := in.(*ssa.Phi)
@@ -327,7 +337,7 @@ func classifyMapRange(e *Env, p *load.Program, f *ssa.Function, rg *ssa.Range) (
 					return "sensitive", "a map cell not determined by the iteration's own key/value is written (last writer wins)"
 				}
 				// distinct iterations must write distinct keys: key derived from k is distinct; from v needs injective values
-				if derivesFrom(x.Key, nil, kv[2], 0) && !derivesFrom(x.Key, kv[1], nil, 0) {
+				if derivesFromP(x.Key, isIterVal, 0) {
 					if ok, detail := injectiveSources(e, p, f, rg); !ok {
 						return "sensitive", "cells are keyed by the ranged map's values, which are not pairwise distinct (" + detail + "): last writer wins"
 					}
@@ -394,29 +404,37 @@ func nameOfPhi(ph *ssa.Phi) string {
 }
 
 func derivesFrom(v, k, val ssa.Value, depth int) bool {
+	return derivesFromP(v, func(x ssa.Value) bool { return (k != nil && x == k) || (val != nil && x == val) }, depth)
+}
+
+// derivesFromP: v is a leaf, or a projection / conversion of one.
+func derivesFromP(v ssa.Value, leaf func(ssa.Value) bool, depth int) bool {
 	if v == nil || depth > 8 {
 		return false
 	}
-	if (k != nil && v == k) || (val != nil && v == val) {
+	if leaf(v) {
 		return true
 	}
+	k, val := ssa.Value(nil), ssa.Value(nil)
+	_ = k
+	_ = val
 	switch x := v.(type) {
 	case *ssa.Convert:
-		return derivesFrom(x.X, k, val, depth+1)
+		return derivesFromP(x.X, leaf, depth+1)
 	case *ssa.ChangeType:
-		return derivesFrom(x.X, k, val, depth+1)
+		return derivesFromP(x.X, leaf, depth+1)
 	case *ssa.MakeInterface:
-		return derivesFrom(x.X, k, val, depth+1)
+		return derivesFromP(x.X, leaf, depth+1)
 	case *ssa.UnOp:
-		return derivesFrom(x.X, k, val, depth+1)
+		return derivesFromP(x.X, leaf, depth+1)
 	case *ssa.FieldAddr:
-		return derivesFrom(x.X, k, val, depth+1)
+		return derivesFromP(x.X, leaf, depth+1)
 	case *ssa.IndexAddr:
-		return derivesFrom(x.X, k, val, depth+1)
+		return derivesFromP(x.X, leaf, depth+1)
 	case *ssa.Field:
-		return derivesFrom(x.X, k, val, depth+1)
+		return derivesFromP(x.X, leaf, depth+1)
 	case *ssa.Slice:
-		return derivesFrom(x.X, k, val, depth+1)
+		return derivesFromP(x.X, leaf, depth+1)
 	}
 	return false
 }
@@ -544,4 +562,15 @@ func uniqueMatch(e *Env, p *load.Program, f *ssa.Function, rg *ssa.Range, b *ssa
 		}
 	}
 	return false, "no equality guard on the iteration's key or value"
+}
+
+
+// sameLoadedValue: the same SSA value or two loads of the same address.
+func sameLoadedValue(a, b ssa.Value) bool {
+	if a == b {
+		return true
+	}
+	la, ok1 := a.(*ssa.UnOp)
+	lb, ok2 := b.(*ssa.UnOp)
+	return ok1 && ok2 && la.Op == token.MUL && lb.Op == token.MUL && la.X == lb.X
 }
